@@ -216,8 +216,8 @@ def run(ctx):
     b = build.Builder()
     _EXE = b.harness('asan', 'decode', ['h_decode.c'])
     args = []
-    per = 110 if ctx.tier == 'quick' else 2500
-    reps = 2 if ctx.tier == 'quick' else 12
+    per = 700 if ctx.tier == 'quick' else 6000
+    reps = 2 if ctx.tier == 'quick' else 16
     for mi, m in enumerate(streams.ALL_METHODS):
         for r in range(reps):
             args.append((m, ctx.seed * 6007 + mi * 131 + r, per, ctx.tier, r == 0))
